@@ -5,10 +5,14 @@ numpy.f -> function-level implementation -> evaluable constructor/wrapper -> emi
 evaluated symbolically (small functions are inlined, classes are read through _compile_expression) and its
 meaning, as a normal form over the operands, equals the meaning NumPy documents for f; R07.2 the element-kind
 class (min_dtype / force_dtype) equals NumPy's result kind; R07.3 the dispatch hooks consult the table and
-decline the rest.  Not decided: broadcasting, indexing, reshape, einsum, lowering with point axes.
+decline the rest; R07.4 linear-algebra wrappers announce an inexact kind; R07.5 no in-place store into
+caller-owned arrays; R07.6 slice normalisation; R07.7 dot/matmul/vdot compare the operand shapes before the
+broadcasting product; R07.8 every _Transpose receives normalised, permutation-checked axes.
+Not decided: broadcasting, indexing, reshape, einsum, lowering with point axes (values).
 '''
 
 import ast
+import builtins
 import json
 import os
 from fractions import Fraction
@@ -407,25 +411,139 @@ def check_composites(model, rep):
                f'{key} normalises slice bounds as start={a.get("start")}, stop={a.get("stop")}: not Python\'s slice semantics (e.g. an explicit stop 0 or start 0)', statement='slice-normalisation')
 
 
+NONBROADCAST = {   # NumPy functions of two operands that do NOT broadcast (all of) their axes against each other
+    'dot': 'contracted',      # last axis of the first operand against the second-to-last (or only) axis of the second
+    'matmul': 'contracted',
+    'vdot': 'flattened',      # both operands flattened, sizes must agree
+}
+
+
+def _shape_guards(fn, p0, p1):
+    """`if <test reading .shape/.size of both operands>: raise ValueError` statements of fn, in line order."""
+    out = []
+    for s_ in ast.walk(fn):
+        if not isinstance(s_, ast.If) or not any(isinstance(b, ast.Raise) and 'ValueError' in src(b) for b in s_.body):
+            continue
+        read = {(n.value.id, n.attr) for n in ast.walk(s_.test) if isinstance(n, ast.Attribute) and isinstance(n.value, ast.Name)}
+        if any((p0, a) in read for a in ('shape', 'size')) and any((p1, a) in read for a in ('shape', 'size')):
+            out.append(s_)
+    return sorted(out, key=lambda s_: s_.lineno)
+
+
 def check_contractions(model, rep):
-    """R07.7: contractions realised as broadcasting product + sum must compare the contracted lengths first (sibling agreement dot/matmul)."""
+    """R07.7: implementations of NumPy functions that do not broadcast their operands against each other, but are realised as a
+    broadcasting product + sum, must compare the operand shapes first (sibling agreement dot/matmul/vdot)."""
     m, regs = registrations(model)
     by = {fn.name: fn for fn, _ in regs}
-    for name in ('dot', 'matmul'):
+    for name, how in NONBROADCAST.items():
         fn = by.get(name)
         if fn is None:
             raise AnalysisError(f'numpy.{name} implementation not found')
         pos = [a.arg for a in fn.args.args]
-        guards = []
-        for s_ in ast.walk(fn):
-            if isinstance(s_, ast.If) and isinstance(s_.test, ast.Compare) and isinstance(s_.test.ops[0], ast.NotEq) and any(isinstance(b, ast.Raise) and 'ValueError' in src(b) for b in s_.body):
-                l, r = src(s_.test.left), src(s_.test.comparators[0])
-                if l == f'{pos[0]}.shape[-1]' and r.startswith(f'{pos[1]}.shape[') and '-2' in r:
+        # the first place where the two operands are combined with broadcasting
+        combine = [n.lineno for n in ast.walk(fn) if (isinstance(n, ast.BinOp) and isinstance(n.op, ast.Mult)) or
+                   (isinstance(n, ast.Call) and src(n.func) in ('broadcast_arrays', '_Wrapper.broadcasted_arrays', 'numpy.multiply', 'multiply'))]
+        if not combine:
+            raise AnalysisError(f'numpy.{name}: no broadcasting combination of the operands found')
+        guards = [g for g in _shape_guards(fn, pos[0], pos[1]) if g.lineno < max(combine)]
+        if how == 'contracted':   # the test reads the last axis of the first operand
+            guards = [g for g in guards if any(isinstance(n, ast.Subscript) and src(n.value) == f'{pos[0]}.shape' and src(n.slice) == '-1' for n in ast.walk(g.test))]
+        # no broadcasting of the raw operands before the guard
+        early = [n.lineno for n in ast.walk(fn) if isinstance(n, ast.Call) and src(n.func) == 'broadcast_arrays' and guards and n.lineno < guards[0].lineno]
+        ok = bool(guards) and not early
+        rep.ob('R07.7', f'function:__implementations__.{name}', f'{m.relpath}:{fn.lineno}', ok, f'numpy.{name}: the operand shapes are compared and a mismatch raises ValueError before the broadcasting product' if ok else
+               f'numpy.{name} combines `{pos[0]}` and `{pos[1]}` with broadcasting without first comparing their shapes: an axis of length one is silently broadcast, where NumPy ' +
+               ('rejects the operands' if how == 'contracted' else 'flattens both operands and rejects unequal sizes'),
+               statement='contracted-lengths-checked' if how == 'contracted' else 'operand-sizes-checked')
+
+
+def _axes_taint(fn):
+    """Flow through fn in line order: which local names may hold caller-supplied (un-normalised) axis numbers.
+    Returns {call node of _Transpose/cls: (tainted names read by the axes operand, names read, guards before it)}."""
+    pos, kwonly, va, kw = params(fn)
+    names = [p for p in pos if p not in ('self', 'cls')]
+    raw = set(names[1:]) | set(kwonly) | ({va} if va else set())    # everything but the array operand
+
+    def taint(e, env):
+        if isinstance(e, ast.Call) and method_name(e) == 'normdim':
+            return False
+        if isinstance(e, ast.Call) and src(e.func) == 'range':
+            return any(taint(a, env) for a in e.args)
+        if isinstance(e, ast.Name):
+            return e.id in env
+        if isinstance(e, ast.Attribute):
+            return False    # .ndim, .shape of an operand
+        if isinstance(e, (ast.GeneratorExp, ast.ListComp, ast.SetComp)):
+            env2 = set(env)
+            for g in e.generators:
+                tgt = {n.id for n in ast.walk(g.target) if isinstance(n, ast.Name)}
+                if taint(g.iter, env2):
+                    env2 |= tgt
+                else:
+                    env2 -= tgt
+            return taint(e.elt, env2)
+        if isinstance(e, ast.IfExp):
+            return taint(e.body, env) or taint(e.orelse, env)
+        if isinstance(e, ast.Compare):
+            return False
+        return any(taint(c, env) for c in ast.iter_child_nodes(e) if isinstance(c, ast.expr))
+
+    env = set(raw)
+    sites = {}
+    guards = []
+
+    def visit(stmts):
+        for s_ in stmts:
+            for c in sorted((c for c in ast.walk(s_) if isinstance(c, ast.Call) and src(c.func) in ('_Transpose', 'cls') and len(c.args) == 2 and not isinstance(s_, (ast.If, ast.For, ast.While, ast.With, ast.Try))), key=lambda c: c.lineno):
+                ax = c.args[1]
+                sites[c] = (taint(ax, env), {n.id for n in ast.walk(ax) if isinstance(n, ast.Name) and not hasattr(builtins, n.id)}, list(guards))
+            if isinstance(s_, ast.Assign) and len(s_.targets) == 1 and isinstance(s_.targets[0], ast.Name):
+                (env.add if taint(s_.value, env) else env.discard)(s_.targets[0].id)
+            elif isinstance(s_, ast.Expr) and isinstance(s_.value, ast.Call) and isinstance(s_.value.func, ast.Attribute) and s_.value.func.attr in ('extend', 'append', 'insert') and isinstance(s_.value.func.value, ast.Name):
+                if any(taint(a, env) for a in s_.value.args):
+                    env.add(s_.value.func.value.id)
+            elif isinstance(s_, ast.If):
+                if any(isinstance(b, ast.Raise) for b in s_.body):
                     guards.append(s_)
-        ok = len(guards) == 1
-        rep.ob('R07.7', f'function:__implementations__.{name}', f'{m.relpath}:{fn.lineno}', ok, f'numpy.{name}: the contracted axis lengths are compared and a mismatch raises ValueError before the broadcasting product' if ok else
-               f'numpy.{name} multiplies and sums without comparing `{pos[0]}.shape[-1]` with the contracted axis of `{pos[1]}`: a contracted axis of length one is silently broadcast, where NumPy rejects the operands',
-               statement='contracted-lengths-checked')
+                visit(s_.body)
+                visit(s_.orelse)
+            elif isinstance(s_, (ast.For, ast.While, ast.With, ast.Try)):
+                raise AnalysisError(f'{fn.name}: statement kind {type(s_).__name__} not modelled in the axes flow')
+    visit(fn.body)
+    return sites
+
+
+def check_axes(model, rep):
+    """R07.8: _Transpose.lower adds the number of point axes to every stored axis, which is right only for a permutation of
+    0..ndim-1.  Every construction of _Transpose therefore receives axes that are normalised (numeric.normdim) or derived from
+    range(ndim), and - unless they are derived from range(ndim) alone - checked for repeated/missing entries first."""
+    mod = model.module('function')
+    low = model.func('function:_Transpose.lower')
+    if not any(isinstance(n, ast.BinOp) and isinstance(n.op, ast.Add) and 'offset' in src(n) for n in ast.walk(low.node)):
+        raise AnalysisError('_Transpose.lower no longer offsets the stored axes: R07.8 needs review')
+    nsites = 0
+    for f in model.functions.values():
+        if f.module is not mod or isinstance(f.node, ast.Lambda):
+            continue
+        if not any(isinstance(c, ast.Call) and (src(c.func) == '_Transpose' or (src(c.func) == 'cls' and f.cls is not None and f.cls.name == '_Transpose')) and len(c.args) == 2 for c in ast.walk(f.node)):
+            continue
+        for c, (tainted, names, guards) in _axes_taint(f.node).items():
+            if src(c.func) == 'cls' and not (f.cls is not None and f.cls.name == '_Transpose'):
+                continue
+            nsites += 1
+            pure = not names - {params(f.node)[0][1 if params(f.node)[0][0] in ('self', 'cls') else 0]}   # reads nothing but the array operand: built from range(ndim)
+            derived = set(names)
+            for s_ in ast.walk(f.node):   # names the axes value was computed from (one step back is enough for the two idioms in use)
+                if isinstance(s_, ast.Assign) and isinstance(s_.targets[0], ast.Name) and s_.targets[0].id in names:
+                    derived |= {n.id for n in ast.walk(s_.value) if isinstance(n, ast.Name)}
+            checked = pure or any({n.id for n in ast.walk(g.test) if isinstance(n, ast.Name)} & (derived - {'array', 'arg'}) for g in guards)
+            ok = not tainted and checked
+            rep.ob('R07.8', f.key, f.where(c), ok, f'`{src(c)[:60]}`: the axes are ' + ('derived from range(ndim)' if pure else 'normalised with numeric.normdim and checked to be a permutation') if ok else
+                   f'`{src(c)[:60]}` stores ' + ('caller-supplied axis numbers without numeric.normdim' if tainted else 'axes that are never checked for repeated or missing entries') +
+                   ': _Transpose.lower adds the point-axis offset to each entry, so negative, repeated or missing axes announce a shape that evaluation cannot deliver (NumPy normalises negative axes and rejects the others)',
+                   statement=f'transpose-axes@{f.name}')
+    if nsites < 2:
+        raise AnalysisError(f'only {nsites} constructions of _Transpose found')
 
 
 def _ord(fn, node):
@@ -461,12 +579,14 @@ def run(model, rep, tier):
     rep.rule('R07.4', 'linear-algebra wrappers announce an inexact element kind')
     rep.rule('R07.5', 'implementations never write into caller-owned arrays')
     rep.rule('R07.6', 'slice bounds are normalised with Python slice semantics in both layers')
-    rep.rule('R07.7', 'contractions compare the contracted lengths before the broadcasting product (dot/matmul agree)')
+    rep.rule('R07.7', 'non-broadcasting functions of two operands (dot, matmul, vdot) compare the operand shapes before the broadcasting product')
+    rep.rule('R07.8', 'every _Transpose is constructed from normalised, permutation-checked axes')
     rep.trusted_base.append('oracles/numpy_api.json (NumPy documented semantics)')
     check_chains(model, rep, oracle)
     check_hooks(model, rep)
     check_composites(model, rep)
     check_contractions(model, rep)
+    check_axes(model, rep)
     check_namespace_table(model, rep, oracle)
     rep.require('R07.1', 55)
     rep.require('R07.2', 40)
